@@ -81,6 +81,8 @@ def isSpaceC (c : UInt8) : Bool := c == 32 || (9 ≤ c && c ≤ 13)
 
 /-- `OptionHandler::stoi`: `std::stoi` (white space, sign, digits; 32-bit range) with the whole string consumed -/
 def stoi (s : Bytes) : Except Exn Int :=
+  -- white space in front of a number is skipped by std::stoi, but is no part of a number: refused before std::stoi is called
+  if (match s with | c :: _ => isSpaceC c | [] => false) then .error .cmdlineError else
   let s1 := s.dropWhile isSpaceC
   let (neg, s2) : Bool × Bytes := match s1 with
     | c :: r => if c == 43 then (false, r) else if c == 45 then (true, r) else (false, s1)
